@@ -1,5 +1,6 @@
 import BB.Driver.Util
 import BB.Model.CachingSched
+import BB.Model.CachingKey
 /-!
 Line-protocol driver of the C17 models.  Sections are independent; the first word selects one.
 
@@ -322,6 +323,28 @@ def stepE (s : S) : List String → S × String
     | _, _, _ => (s, "bad-op")
   | _ => (s, "bad-op")
 
+def parseShape : String → Option Shape
+  | "local" => some .localS
+  | "fallback" => some .fallback
+  | "caching" => some .caching
+  | "mirrored" => some .mirrored
+  | _ => none
+
+/-- `k.format <shape> <fa> <fb>`: the key format a configured stack announces (0 = without, 1 = with
+instance name); `k.same <fmt> <inst> <hash> <inst'> <hash'>`: do two digests share a cache key. -/
+def stepK (s : S) : List String → S × String
+  | ["k.format", sh, fa, fb] =>
+    match parseShape sh, nat? fa, nat? fb with
+    | some sh, some fa, some fb =>
+      if fa ≤ 1 ∧ fb ≤ 1 then (s, toString (stackFormat sh fa fb)) else (s, "bad-op")
+    | _, _, _ => (s, "bad-op")
+  | ["k.same", f, i, h, i', h'] =>
+    match nat? f, nat? i, nat? h, nat? i', nat? h' with
+    | some f, some i, some h, some i', some h' =>
+      (s, if digestKey f i h = digestKey f i' h' then "same" else "different")
+    | _, _, _, _, _ => (s, "bad-op")
+  | _ => (s, "bad-op")
+
 def step (s : S) (line : String) : S × String :=
   let ws := words line
   match ws with
@@ -332,6 +355,7 @@ def step (s : S) (line : String) : S × String :=
     else if w.startsWith "l." then stepL s ws
     else if w.startsWith "q." then stepQ s ws
     else if w.startsWith "e." then stepE s ws
+    else if w.startsWith "k." then stepK s ws
     else (s, "bad-op")
 
 def main : IO Unit := loop step {}
